@@ -53,6 +53,14 @@ func (s stmt) isLeaf() bool {
 	return false
 }
 
+// isNegatedLeaf: not(... not(leaf)): its required / optional data is the leaf's.
+func (s stmt) isNegatedLeaf() bool {
+	if s.Op != "not" || s.S == nil {
+		return false
+	}
+	return s.S.isLeaf() || s.S.isNegatedLeaf()
+}
+
 // node builds the wire form of the statement.
 func (s stmt) node() (ipld.Node, error) {
 	var ierr error
